@@ -28,8 +28,9 @@ VARIABLES zs, qs, fs, rs,           \* pools
           held,                     \* ids of blocks handed to the caller (returned strings)
           inCall,                   \* "" or the name of the public function in progress
           tainted,                  \* a signal unwound a call: heap accounting suspended until Reset
-          gl                        \* documented globals: [defprec]
-mvars == <<zs, qs, fs, rs, heap, held, inCall, tainted, gl>>
+          gl,                       \* documented globals: [defprec]
+          memo                      \* reproducibility ghost: set of <<history key, outputs>> of random draws
+mvars == <<zs, qs, fs, rs, heap, held, inCall, tainted, gl, memo>>
 
 AbsI(i) == IF i < 0 THEN -i ELSE i
 Range(s) == {s[i] : i \in DOMAIN s}
@@ -42,9 +43,10 @@ DeadQ == [live |-> FALSE, n |-> DeadZ, d |-> DeadZ]
 Init == /\ zs = [i \in 0..(NZ - 1) |-> DeadZ]
         /\ qs = [i \in 0..(NQ - 1) |-> DeadQ]
         /\ fs = [i \in 0..(NF - 1) |-> DeadF]
-        /\ rs = [i \in 0..(NR - 1) |-> [live |-> FALSE, blks |-> {}]]
+        /\ rs = [i \in 0..(NR - 1) |-> [live |-> FALSE, blks |-> {}, key |-> <<>>]]
         /\ heap = {} /\ held = {} /\ inCall = "" /\ tainted = FALSE
         /\ gl = [defprec |-> 2]      \* __gmp_default_fp_limb_precision for 64-bit default precision
+        /\ memo = {}
 
 LiveIds(h) == {b[1] : b \in h}
 SizeOf(h, id) == (CHOOSE b \in h : b[1] = id)[2]
@@ -58,7 +60,7 @@ WFF(c, h) == /\ AbsI(c.sz) <= c.prec + 1
              /\ ZLimbCount(c.v) = AbsI(c.sz)            \* top limb non-zero
              /\ (c.sz < 0) = ZIsNeg(c.v)
              /\ (c.sz = 0 => c.exp = 0)                  \* zero has exponent 0
-             /\ <<c.blk, (c.prec + 1) * 8>> \in h
+             /\ \E b \in h : b[1] = c.blk /\ b[2] >= (c.prec + 1) * 8     \* (mpf_set_prec_raw lowers prec without reallocating)
 
 OwnedZ(z) == {z[i].blk : i \in {j \in DOMAIN z : z[j].live}}
 OwnedQ(q) == UNION {{q[i].n.blk, q[i].d.blk} : i \in {j \in DOMAIN q : q[j].live}}
@@ -69,28 +71,28 @@ OwnedR(r) == UNION {r[i].blks : i \in DOMAIN r}
 Alloc(ev) == /\ ev.e = "al"
              /\ ev.id \notin LiveIds(heap)
              /\ heap' = heap \cup {<<ev.id, ev.sz>>}
-             /\ UNCHANGED <<zs, qs, fs, rs, held, inCall, tainted, gl>>
+             /\ UNCHANGED <<zs, qs, fs, rs, held, inCall, tainted, gl, memo>>
 Free(ev) == /\ ev.e = "fr"
             /\ <<ev.id, ev.sz>> \in heap                        \* exact current size, or no behaviour
             /\ ev.id \notin held
             /\ heap' = heap \ {<<ev.id, ev.sz>>}
-            /\ UNCHANGED <<zs, qs, fs, rs, held, inCall, tainted, gl>>
+            /\ UNCHANGED <<zs, qs, fs, rs, held, inCall, tainted, gl, memo>>
 Realloc(ev) == /\ ev.e = "re"
                /\ <<ev.id, ev.old>> \in heap
                /\ ev.id \notin held
                /\ heap' = (heap \ {<<ev.id, ev.old>>}) \cup {<<ev.nid, ev.new>>}
-               /\ UNCHANGED <<zs, qs, fs, rs, held, inCall, tainted, gl>>
+               /\ UNCHANGED <<zs, qs, fs, rs, held, inCall, tainted, gl, memo>>
 (* the caller releases a string the library returned, with the documented size strlen+1 *)
 HFree(ev) == /\ ev.e = "hfree" /\ inCall = ""
              /\ ev.blk \in held /\ <<ev.blk, ev.sz>> \in heap
              /\ heap' = heap \ {<<ev.blk, ev.sz>>} /\ held' = held \ {ev.blk}
-             /\ UNCHANGED <<zs, qs, fs, rs, inCall, tainted, gl>>
+             /\ UNCHANGED <<zs, qs, fs, rs, inCall, tainted, gl, memo>>
 
 (* ---- calls on pool variables ---- *)
 CallBegin(ev) == /\ ev.e = "begin" /\ inCall = ""
                  /\ ev.f \in DOMAIN ApiSig
                  /\ inCall' = ev.f
-                 /\ UNCHANGED <<zs, qs, fs, rs, heap, held, tainted, gl>>
+                 /\ UNCHANGED <<zs, qs, fs, rs, heap, held, tainted, gl, memo>>
 
 IsZ(k) == k \in {"Zo", "Zi", "Zio"}
 IsQ(k) == k \in {"Qo", "Qi", "Qio"}
@@ -108,7 +110,7 @@ Post(f, A, O, r, x) ==
    ELSE PostZ(f, A, O, r, x)
 SigAllowed(f, A) ==
    IF f \in FunsQ THEN SigQ(f, A) ELSE IF f \in FunsF THEN SigF(f, A)
-   ELSE IF f \in FunsIO \/ f \in FunsR THEN FALSE ELSE SigZ(f, A)
+   ELSE IF f \in FunsIO THEN FALSE ELSE IF f \in FunsR THEN SigR(f, A) ELSE SigZ(f, A)
 
 CallEnd(ev) ==
   /\ ev.e = "end" /\ inCall = ev.f
@@ -146,10 +148,23 @@ CallEnd(ev) ==
          otherR == UNION {rs[i].blks : i \in (DOMAIN rs) \ argR}
          extra == LiveIds(heap) \ (owned1 \cup otherR)       \* blocks nobody else owns: may only belong to a random state argument
          dead1 == IF sg.life = "-" /\ ks[1] = "R" THEN {ev.a[1]} ELSE {}
-         rs1 == [i \in DOMAIN rs |-> IF i \in dead1 THEN [live |-> FALSE, blks |-> {}]
-                                     ELSE IF i \in argR /\ i = (CHOOSE j \in argR \ dead1 : TRUE)
-                                          THEN [live |-> TRUE, blks |-> extra]
-                                     ELSE IF i \in argR THEN [live |-> TRUE, blks |-> rs[i].blks \cap LiveIds(heap)]
+         posR == {j \in 1..n : ks[j] = "R"}
+         firstR == IF posR = {} THEN -1 ELSE ev.a[CHOOSE j \in posR : \A j2 \in posR : j <= j2]
+         \* reproducibility ghost: the call as seen by the generator = function name + every non-object input value
+         callDesc == <<ev.f, [k \in 1..n |-> IF ks[k] = "R" THEN "R" ELSE IF IsOut(ks[k]) /\ ~IsIn(ks[k]) THEN "-" ELSE A[k]]>>
+         outDesc == <<ev.ret, [k \in 1..n |-> IF IsOut(ks[k]) THEN (IF IsZ(ks[k]) THEN O[k].v ELSE IF IsF(ks[k]) THEN <<O[k].v, O[k].exp>> ELSE "q") ELSE "-"]>>
+         key0 == IF firstR = -1 THEN <<>> ELSE rs[firstR].key
+         newkey == IF ev.f \in {"gmp_randinit_default", "gmp_randinit_mt", "gmp_randinit_lc_2exp", "gmp_randinit_lc_2exp_size"} THEN <<callDesc>>
+                   ELSE IF ev.f = "gmp_randinit_set" THEN rs[ev.a[2]].key
+                   ELSE IF ev.f \in {"gmp_randseed", "gmp_randseed_ui"} THEN <<key0[1], callDesc>>        \* seeding restarts the history
+                   ELSE Append(key0, callDesc)
+         seeded == Len(newkey) >= 2 /\ newkey[2][1] \in {"gmp_randseed", "gmp_randseed_ui"}
+         isDraw == firstR # -1 /\ ev.f \notin {"gmp_randinit_default", "gmp_randinit_mt", "gmp_randinit_lc_2exp", "gmp_randinit_lc_2exp_size",
+                                                "gmp_randinit_set", "gmp_randseed", "gmp_randseed_ui", "gmp_randclear"}
+         rs1 == [i \in DOMAIN rs |-> IF i \in dead1 THEN [live |-> FALSE, blks |-> {}, key |-> <<>>]
+                                     ELSE IF i = firstR
+                                          THEN [live |-> TRUE, blks |-> extra, key |-> newkey]
+                                     ELSE IF i \in argR THEN [live |-> TRUE, blks |-> rs[i].blks \cap LiveIds(heap), key |-> rs[i].key]
                                      ELSE rs[i]]
      IN
        \* inputs must be live variables
@@ -158,7 +173,7 @@ CallEnd(ev) ==
                           /\ (IsIn(ks[k]) /\ IsF(ks[k])) => fs[ev.a[k]].live
        /\ IF ev.sig = "FPE"
           THEN /\ SigAllowed(ev.f, A)
-               /\ tainted' = TRUE /\ rs' = rs /\ held' = held
+               /\ tainted' = TRUE /\ rs' = rs /\ held' = held /\ memo' = memo
           ELSE /\ Post(ev.f, A, O, ev.ret, ev.x)
                \* operands that are not outputs keep their value (and stay alive)
                /\ \A c \in chZ : c.i \notin outZ => (c.live = 1 /\ zs[c.i].live /\ c.v = zs[c.i].v)
@@ -173,6 +188,9 @@ CallEnd(ev) ==
                \* heap accounting: no temporary survives, nothing leaked, nothing owned twice
                /\ tainted \/ ( /\ (argR \ dead1 = {} => extra = {})
                                /\ \A i \in DOMAIN zs1, j \in DOMAIN zs1 : (zs1[i].live /\ zs1[j].live /\ i # j) => zs1[i].blk # zs1[j].blk )
+               \* reproducibility: equal (algorithm, parameters, seed, call history) => equal outputs
+               /\ (isDraw /\ seeded) => \A m \in memo : m[1] = newkey => m[2] = outDesc
+               /\ memo' = IF isDraw /\ seeded THEN memo \cup {<<newkey, outDesc>>} ELSE memo
                /\ tainted' = tainted /\ rs' = rs1 /\ held' = held1
        /\ zs' = zs1 /\ qs' = qs1 /\ fs' = fs1
        /\ gl' = IF ev.f = "mpf_set_default_prec" THEN [defprec |-> DefPrecLimbs(ev.a[1])] ELSE gl
@@ -186,8 +204,9 @@ Fn(ev) == /\ ev.e = "fn" /\ inCall = ""
 
 Reset(ev) == /\ ev.e = "reset"
              /\ zs' = [i \in 0..(NZ - 1) |-> DeadZ] /\ qs' = [i \in 0..(NQ - 1) |-> DeadQ]
-             /\ fs' = [i \in 0..(NF - 1) |-> DeadF] /\ rs' = [i \in 0..(NR - 1) |-> [live |-> FALSE, blks |-> {}]]
+             /\ fs' = [i \in 0..(NF - 1) |-> DeadF] /\ rs' = [i \in 0..(NR - 1) |-> [live |-> FALSE, blks |-> {}, key |-> <<>>]]
              /\ heap' = {} /\ held' = {} /\ inCall' = "" /\ tainted' = FALSE /\ gl' = [defprec |-> 2]
+             /\ memo' = IF "keepmemo" \in DOMAIN ev THEN memo ELSE {}
 
 (* everything has been cleared: the library holds no block *)
 Quiesce(ev) == /\ ev.e = "quiesce" /\ inCall = ""
@@ -209,7 +228,7 @@ OwnersHoldLiveBlocks ==     \* outside a call every live variable owns a live bl
    (inCall = "" /\ ~tainted) =>
       /\ \A i \in DOMAIN zs : zs[i].live => <<zs[i].blk, zs[i].al * 8>> \in heap
       /\ \A i \in DOMAIN qs : qs[i].live => <<qs[i].n.blk, qs[i].n.al * 8>> \in heap /\ <<qs[i].d.blk, qs[i].d.al * 8>> \in heap
-      /\ \A i \in DOMAIN fs : fs[i].live => <<fs[i].blk, (fs[i].prec + 1) * 8>> \in heap
+      /\ \A i \in DOMAIN fs : fs[i].live => \E b \in heap : b[1] = fs[i].blk /\ b[2] >= (fs[i].prec + 1) * 8
 NoLeakOutsideCalls ==
    (inCall = "" /\ ~tainted) => LiveIds(heap) = OwnedZ(zs) \cup OwnedQ(qs) \cup OwnedF(fs) \cup OwnedR(rs) \cup held
 =============================================================================
